@@ -76,13 +76,22 @@ def run_parse_rules(res, ast):
         body = fn["body"]
         loops = [l for l in walk_t(body, "ForLoop")]
         main = None
-        for l in loops:
-            if ast.src1(IR, l["expr"]).replace(" ", "").endswith(".enumerate()") or "chars" in ast.src1(IR, l["expr"]):
-                main = l
-                break
+        cands = []
+        for l in loops + [l for l in walk_t(body, "While", "Loop")]:
+            for m in walk_t(l["body"], "Match"):
+                nlit = sum(1 for a in m["arms"] if a["pat"]["t"] == "PLit" and a["pat"]["lit"]["kind"] == "char")
+                if nlit >= 2 and l not in cands:
+                    cands.append(l)
+        # nested candidates: keep outermost only
+        cands = [l for l in cands if not any(o is not l and any(x is l for x in walk(o["body"])) for o in cands)]
+        if len(cands) == 1 and cands[0]["t"] == "ForLoop":
+            main = cands[0]
+        elif len(cands) > 1:
+            res.bad("COMMENT-INERT", f"{IR}|parse|single-scan", w0, f"parse dispatches on characters in {len(cands)} separate loops; the source must be scanned by one loop")
         pname = [p for p in fn["sig"]["inputs"] if p["t"] == "Arg"][0]["pat"].get("name")
         if main is None:
-            res.bad("ERR-POS", f"{IR}|parse|loop", w0, "no character loop found in parse")
+            res.bad("ERR-POS", f"{IR}|parse|loop", w0, "parse is not a single `for (i, c) in program.chars().enumerate()` scan whose body dispatches on the character "
+                    "(another loop shape can consume characters without dispatching them or lose the character index)")
         else:
             it = ast.src1(IR, main["expr"]).replace(" ", "")
             res.check(it == f"{pname}.chars().enumerate()", "ERR-POS", f"{IR}|parse|iterator", where(IR, main, "parse"),
@@ -159,12 +168,12 @@ def run_parse_rules(res, ast):
                     res.check(good, "STACK-PAIR", f"{IR}|parse|{vec}", w0,
                               f"`{vec}`: pushed {names_o} at `[`, {names_c} at `]`, {len(other)} other mutation(s) in the scan; "
                               "expected exactly one push at `[` and one pop at `]`")
-                if "[" in arms:
+                if "[" in arms and strip_paren(arms["["]["body"])["t"] == "BlockExpr":
                     st = strip_paren(arms["["]["body"])["block"]["stmts"]
                     top = all(s["t"] in ("ExprStmt", "Local") and not list(walk_t(s, "If", "Match", "Return")) for s in st)
                     res.check(top, "STACK-PAIR", f"{IR}|parse|open-unconditional", where(IR, arms["["], "parse"),
                               "the pushes at `[` must be unconditional")
-                if "]" in arms:
+                if "]" in arms and strip_paren(arms["]"]["body"])["t"] == "BlockExpr":
                     st = strip_paren(arms["]"]["body"])["block"]["stmts"]
                     first = st[0]["expr"] if st and st[0]["t"] == "ExprStmt" else None
                     okf = False
